@@ -15,8 +15,8 @@ func init() {
 		Run:   checkC03,
 		Explanation: "The bound is real time and is not decided. Decided are the structural necessary conditions of any bound of the stated form (one attempt for a deposed leader, three for an unreachable store): (R1) every refresh attempt is time-bounded: the Update runs in its own loop-free goroutine that reports through a buffered channel, and the loop waits for it in a select that also has a timer case with duration max(H/2, 1s) and a ctx.Done() case; " +
 			"(R2) on a failed attempt a permanent error demotes at once and returns; otherwise a loop-carried counter is incremented by exactly 1, demotion + return happen at counter >= 3, and the counter is reset to 0 only on the success edge; (R3) no store operation is issued in an iteration unless the claim was read true in that iteration; " +
-			"(R4) the claim-set unit starts the refresh loop in the critical section that sets the claim, and the loop returns only on claim == false or after a (possibly no-op) demotion - also when its context is done, so that a cancelled Start context ends the claim; (R5) the NATS client's revision-conflict errors are classified permanent (C15-R3, shared); (R6) a demotion clears the claim and runs OnDemote (C08, shared); (R7) every tick of a standing claim is a refresh attempt, a counted failure or a demotion; (R8) the ticker period is the heartbeat interval; (R9) the periodic loops of a term (refresh, validation) run under that term's context, which every demotion cancels, so that no loop of an earlier term runs next to a later term's; (R10) the loop's own goroutine never issues a store operation (a hanging store cannot keep it from ticking, timing out and demoting).",
-		NotDecided: []string{"the numeric bound (H + 2 time-outs; 3H + 3 time-outs); observed once by probe: for H below ~333 ms a refresh that succeeds only after d > 3H makes a then cut-off leader step down d + 3T after the start of that refresh (T is floored at 1 s), which exceeds 3H + 3T - a timing matter without a small repair", "that time.After and the ticker fire on time", "that a lost acknowledgement (write applied, response lost) is detected at the next attempt: follows from R2+R5 given the store's revision check"},
+			"(R4) the claim-set unit starts the refresh loop in the critical section that sets the claim, and the loop returns only on claim == false or after a (possibly no-op) demotion - also when its context is done, so that a cancelled Start context ends the claim; (R5) the NATS client's revision-conflict errors are classified permanent (C15-R3, shared); (R6) a demotion clears the claim and runs OnDemote (C08, shared); (R7) every tick of a standing claim is a refresh attempt, a counted failure or a demotion; (R8) the ticker period is the heartbeat interval; (R9) the periodic loops of a term (refresh, validation) run under that term's context, which every demotion cancels, so that no loop of an earlier term runs next to a later term's; (R10) the loop's own goroutine never issues a store operation (a hanging store cannot keep it from ticking, timing out and demoting); (R11) one arithmetic necessary condition of the second bound: the time-out floor does not exceed three accepted heartbeat intervals (open known finding: it does for H < 333 ms).",
+		NotDecided: []string{"the numeric bound itself (H + 2 time-outs; 3H + 3 time-outs) as a measured quantity", "that time.After and the ticker fire on time", "that a lost acknowledgement (write applied, response lost) is detected at the next attempt: follows from R2+R5 given the store's revision check"},
 		Assumptions: []string{"time.After / time.Ticker semantics", "the store's Update is revision-checked (C14)"},
 		Rules: map[string]string{
 			"R1": "refresh Update in a `go` closure without loops, one store op, one send on a channel of capacity >= 1; parent select is blocking with a receive on that channel, on time.After(d) and on ctx.Done(); d == select[(H/2) if !(H/2 < 1s) | 1s if (H/2 < 1s)]",
@@ -26,6 +26,7 @@ func init() {
 			"R5": "see C15-R3",
 			"R6": "see C08-R2/R3",
 			"R8": "the refresh loop's ticker period is cfg.HeartbeatInterval",
+			"R11": "the reject table of the validator contains HeartbeatInterval < c with 3c >= K (K = 1 s, the floor of the per-attempt time-out): T = max(H/2, K) <= 3H for every accepted configuration, which the stated bound needs when the last successful refresh itself was slow",
 			"R10": "no KeyValue operation in the functions reachable from the refresh loop by plain (non-go) calls",
 			"R9": "every function with a time.NewTicker loop that a claim-set unit starts (go) is called with a context whose context.With* ancestors include the term context (the With* call in the claim-set unit whose cancel is stored in the election object and called by every demotion, C19-R1)",
 			"R7": "from the ticker case every path to the next tick passes the goroutine issuing the refresh, an increment of a failure counter (loop-carried +1 or the health counter's Add), or a may-demote call",
@@ -501,6 +502,34 @@ func checkC03(c *Ctx) {
 
 	// ---- R9 ---------------------------------------------------------------------
 	termLoopRule(c, "R9")
+
+	// ---- R11: the stated bound needs T <= 3H ---------------------------------------
+	// "within three heartbeat intervals plus three operation time-outs of the START of its last
+	// successful refresh": that refresh itself may take up to one time-out T, and with T > H the
+	// following attempts run back to back, so the demotion comes d + 3T after the start (d <= T
+	// the latency of the successful refresh). d + 3T <= 3H + 3T needs d <= 3H, i.e. T <= 3H for
+	// every accepted configuration. T = max(H/2, K): K <= 3H must be enforced by validation.
+	{
+		rejects, _, vf := m.rejectTable()
+		floor := int64(1_000_000_000) // K of the accepted form max(H/2, 1 s), checked by R1
+		enforced := false
+		if vf != nil {
+			for _, r := range rejects {
+				for _, l := range r.lits {
+					// any reject of the form HeartbeatInterval < c (or 3*H < c) with c >= K/3 (resp. K)
+					var cst int64
+					if n, _ := fmt.Sscanf(l, "(cfg.HeartbeatInterval < %d)", &cst); n == 1 && cst*3 >= floor {
+						enforced = true
+					}
+					if n, _ := fmt.Sscanf(l, "((3 * cfg.HeartbeatInterval) < %d)", &cst); n == 1 && cst >= floor {
+						enforced = true
+					}
+				}
+			}
+		}
+		c.check(enforced, "R11", "per-attempt time-out never exceeds three heartbeat intervals", firstInstr(rf),
+			"validation rejects HeartbeatInterval < K/3 for the time-out floor K = 1 s: %v. For accepted configurations with H < 333 ms a refresh that succeeds only after d > 3H, followed by an unreachable store, makes the leader step down d + 3T after the start of that refresh (observed: H = 100 ms, d = 0.8 s: 3.80 s; stated bound 3H + 3T = 3.3 s)", enforced)
+	}
 
 	// ---- R10: the loop itself never waits for the store -----------------------------
 	// Every store operation reachable from the refresh loop by plain calls (not through a go
